@@ -526,7 +526,9 @@ pub fn gen_script(src: &mut Src, d: &Decoded, st: &mut Stats) -> ScriptBuf {
                 s.desc.push("flags".into());
             }
             1 => {
-                let mut v = src.u32();
+                // a few recurring values: the same argument then meets different header words
+                // (within a script and across the scripts of a worker process)
+                let mut v = if src.chance(128) { *src.pick(&[0u32, 0xffff_ffff, 0x8180, 0x0100, 0x8000_8000, 0x0010]) } else { src.u32() };
                 if has_anns || qr {
                     v |= 0x8000; // QR gating: scripts may add answer records later
                 }
@@ -539,7 +541,7 @@ pub fn gen_script(src: &mut Src, d: &Decoded, st: &mut Stats) -> ScriptBuf {
                 s.desc.push("rcode".into());
             }
             3 => {
-                let v = src.u8();
+                let v = if src.chance(128) { *src.pick(&[0u8, 3, 15, 16, 255]) } else { src.u8() };
                 s.u8(0x04);
                 s.u8(v);
                 s.desc.push(format!("set_rcode({})", v));
@@ -549,7 +551,7 @@ pub fn gen_script(src: &mut Src, d: &Decoded, st: &mut Stats) -> ScriptBuf {
                 s.desc.push("opcode".into());
             }
             5 => {
-                let v = src.u8();
+                let v = if src.chance(128) { *src.pick(&[0u8, 4, 15, 16, 255]) } else { src.u8() };
                 s.u8(0x06);
                 s.u8(v);
                 s.desc.push(format!("set_opcode({})", v));
